@@ -17,7 +17,12 @@ static int tokens(char *s, const char *sep, char *tok[20]) {
 }
 static void one_A(int si, int li, unsigned A, struct res *r, long x) {
     const polyseed_lang *lang = polyseed_get_lang(li);
-    polyseed_data *s = seed_from_ref(&SEEDS[si]); r->calls++;
+    /* the same abstract seed through load or, for every fourth coin, through create with argument bits above the three feature bits set
+     * (documented as ignored) plus crypt with a zero mask for the encrypted flag */
+    polyseed_data *s = NULL;
+    if ((A & 3) == 1 && !(SEEDS[si].features & 8)) { E_create_high_bits = (A & 4) ? 0xFFFFFFF8u : 0x8; s = seed_via_create(&SEEDS[si]); E_create_high_bits = 0; }
+    if (!s) s = seed_from_ref(&SEEDS[si]);
+    r->calls++;
     if (!s) { res_viol(r, "c05:setup", "", "cannot load seed"); return; }
     polyseed_str phA, ph0; uint8_t st0[32]; polyseed_store(s, st0);
     polyseed_encode(s, lang, (polyseed_coin)A, phA); polyseed_encode(s, lang, 0, ph0); r->calls += 3;
